@@ -11,6 +11,10 @@ def run(ctx):
         ("random-drops-3x2", ["-random", n(400, 3000), "-nodes", "3", "-numconns", "2", "-clients", "4", "-workers", "6", "-round", "200", "-droprate", "0.5", "-delay", "3"], False),
         ("random-drops-2x1", ["-random", n(300, 2000), "-nodes", "2", "-numconns", "1", "-clients", "2", "-workers", "4", "-round", "150", "-droprate", "0.7"], False),
         ("idle-close-3x1", ["-random", n(120, 1000), "-nodes", "3", "-numconns", "1", "-clients", "3", "-workers", "4", "-round", "60", "-idleclose", "-okbias", "2", "-nodrops"], False),
+        # a client that pipelines 2600 queries with 20 KiB answers and reads 1.8 s late (every answer exactly once), and one that
+        # never reads and hangs up (everybody else keeps being answered)
+        ("slow-readers-2x1", ["-random", n(160, 800), "-nodes", "2", "-numconns", "1", "-clients", "3", "-workers", "4", "-round", "160", "-bigevery", "1",
+                              "-slowreaders", "1", "-nonreaders", "1", "-okbias", "8", "-nodrops"], False),
         ("random-calm-4x1", ["-random", n(300, 2000), "-nodes", "4", "-numconns", "1", "-clients", "4", "-workers", "8", "-round", "300", "-delay", "5", "-okbias", "2"], False),
     ]
     # gated replay of the hazard schedules TLC finds on Request.tla (see harness/cmd/vdrv/gates.go)
